@@ -333,10 +333,12 @@ async def _run(sc: dict, holder: dict | None = None) -> dict:
 
             loop.call_soon(_lost)  # as the real transports do
         elif ev == "conn_made":
-            proto._wait_connection_made = loop.create_future() if proto._wait_connection_made.done() else proto._wait_connection_made
-            proto._active_hgi = None
-
+            # no help from the harness: the protocol itself must be ready for its next connection (connection_lost()
+            # arms a new wait_connection_made future; the active gateway id is learnt again)
             def _made() -> None:
+                if connected["up"]:
+                    return  # a transport announces a connection once; a second announcement without a loss in between
+                    #         (this event overtook a conn_lost still hopping through the loop) is not in the alphabet
                 connected["up"] = True
                 R.rec(e="ConnMade")
                 proto.connection_made(tr, ramses=True)
